@@ -124,6 +124,23 @@ example : OrderSound exD2 (after2 exD2 [cutCell 1 0]) = true ∧
     (reimport2 exD2 (after2 exD2 [cutCell 1 0])).map (fun s' => (Rules2.cells exD2).map s'.cid) = some [1, 1, 2, 1, 1, 1] := by
   decide
 
+/-- **order_sound_spec**: `OrderSound` without the search function, for ANY state: it holds iff no rule that is
+exported AFTER a cell's own rule (the rule of the cell's setting object, `f`) covers the cell.  `pos` is the
+position in the export order (`firsts`: setting objects in order of their first key `(edge, locus)`). -/
+theorem order_sound_spec (d : Rules2.Defn) (s : Rules2.St) : OrderSound d s = true ↔
+    ∀ x f g, x ∈ Rules2.cells d → f ∈ Rules2.firsts s (Rules2.cells d) → g ∈ Rules2.firsts s (Rules2.cells d) →
+      s.cid f = s.cid x → Rules2.covers d (Rules2.ruleOf d s g) x = true →
+      Rules2.pos (Rules2.firsts s (Rules2.cells d)) g ≤ Rules2.pos (Rules2.firsts s (Rules2.cells d)) f :=
+  orderSound_spec d s
+
+/-- non-vacuity (the right-hand side can fail): in the counter-example below the offending cell is (0, 0); its
+own rule is exported first (position 0), but the rule at position 1 (the rest, first cell (0, 1)) covers it too -/
+example : (0, 0) ∈ Rules2.firsts (after2 exD2 [cutCell 0 0]) (Rules2.cells exD2) ∧
+    (0, 1) ∈ Rules2.firsts (after2 exD2 [cutCell 0 0]) (Rules2.cells exD2) ∧
+    Rules2.covers exD2 (Rules2.ruleOf exD2 (after2 exD2 [cutCell 0 0]) (0, 1)) (0, 0) = true ∧
+    Rules2.pos (Rules2.firsts (after2 exD2 [cutCell 0 0]) (Rules2.cells exD2)) (0, 1) = 1 ∧
+    Rules2.pos (Rules2.firsts (after2 exD2 [cutCell 0 0]) (Rules2.cells exD2)) (0, 0) = 0 := by decide
+
 /-- **rect_scopes_order_sound**: a simple sufficient condition, for ANY state: if every setting object's
 scope IS a rectangle — every cell whose edge is among the edges the scope uses and whose locus is among the
 loci it uses belongs to the scope — then `OrderSound` holds (rectangles of different objects are then
